@@ -26,9 +26,9 @@ CHECKS = {
     "C03": dict(
         engine="thx",
         category="model_checking",
-        technique="stateless model checking of real threads under a cooperative scheduler (sys.monitoring line events + cooperative locks), iterative preemption bounding, brute-force linearizability oracle",
-        text="For every unordered pair of a 15-operation collision-forcing alphabet (plus curated 2x2 and 3x1 programs) all interleavings of 2-3 real threads sharing one storage object are enumerated up to the preemption bound, with a scheduling point at every source line of the storage-layer file under test and at every lock operation; each complete history must equal, in return values and final state, some real-time-consistent sequential execution on the same backend.",
-        note="Line-granularity preemption; locks are replaced by cooperative ones discovered by type; cached/gRPC: backend calls are atomic steps; bound 2 (mem) / 1 quick, 3 / 2 thorough.",
+        technique="stateless model checking of the real storages: threads under a cooperative scheduler (sys.monitoring line events + cooperative locks), processes at SQL-statement level over real SQLite and at syscall level over a simulated file system; iterative preemption bounding, state caching for the file system part; brute-force linearizability oracle",
+        text="For every unordered pair of a 15-operation collision-forcing alphabet (plus curated 2x2 and 3x1 programs) all interleavings up to the preemption bound are enumerated for (A) 2-3 real threads sharing one storage object (in-memory, journal, cached RDB, gRPC client) with a scheduling point at every source line of the storage-layer file and at every lock operation, (B) processes/threads with their own connections on one SQLite file with a scheduling point at every SQL statement and commit (single-writer lock modelled, real SQLite executes), (C) processes with their own JournalStorage over one simulated journal file with a scheduling point at every syscall (both lock classes). Each complete history must equal, in return values and final state, some real-time-consistent sequential execution on the same backend.",
+        note="Line-granularity preemption for threads; locks replaced by cooperative ones discovered by type; bounds: threads 2 (mem) / 1 quick, 3 / 2 thorough; SQL 1 / 2; SimFS 2 / 3 with state caching. SQLite atomicity failures are known findings (see known_findings.json).",
         design="3/C03",
     ),
     "C04": dict(
